@@ -35,7 +35,9 @@ Classify(b) ==
            fam == CatFam(known[k].cat)
            ref == ModelOf(CodeOf(b))
        IN IF ref.fam = fam /\ ref.name = known[k].name /\ WellFormedFor(fam, b)
-          THEN [cls |-> "valid", fam |-> fam] ELSE [cls |-> "other", fam |-> fam]
+          THEN [cls |-> "valid", fam |-> fam]
+          ELSE IF ref.fam = fam /\ ref.name = known[k].name /\ Tolerated(fam, b) THEN [cls |-> "tolerated", fam |-> fam]
+          ELSE [cls |-> "other", fam |-> fam]
 
 FieldClauses(fam, b, g) ==
   LET d == DecodeDevice(fam, b) IN
@@ -87,6 +89,11 @@ JudgeDgram(e) ==
                                                       \o Cl(e.warns = 0, "C06:valid-broadcast-warned")),
                   tag |-> "dgram-valid-" \o c.fam \o (IF e.cbraise THEN "-callback-raises" ELSE "") \o (IF e.burst THEN "-in-burst" ELSE "")
                           \o (IF e.cut THEN "-cut-by-stop" ELSE "")]
+            [] c.cls = "tolerated" ->     \* an enumerated byte outside its domain in a field the decoder tolerates: still handed over, once
+                 [why |-> Cl(n = 1 \/ (e.cut /\ n = 0), "C07:exactly-one-callback-per-valid-broadcast")
+                          \o Cl(rightOwner, "C07:delivered-to-the-listening-bridge")
+                          \o (IF n >= 1 THEN Cl(e.delivered[1].id = HexLower(Field(e.b, 18, 3)) /\ e.delivered[1].name = NameOf(e.b), "C05:name") ELSE <<>>),
+                  tag |-> "dgram-tolerated-" \o c.fam]
             [] OTHER -> [why |-> <<>>, tag |-> "dgram-gate-pass-other-open"]
 
 SetOf(q) == SeqToSet(q)
